@@ -289,6 +289,14 @@ func (e *Engine) onData(pkt *spec.Data, sigCovered enc.Wire, raw enc.Wire, pitTo
 
 			// check ImplicitDigest256
 			if entry.impSha256 != nil {
+				// The digest is the last component of the Data's full name, and the
+				// Interest is filed under its name without the digest: the Interest
+				// name is a prefix of the full name only if the Data name stops here,
+				// CanBePrefix or not.
+				if cur.Depth() < len(pkt.NameV) {
+					newList = append(newList, entry)
+					continue
+				}
 				h := sha256.New()
 				for _, buf := range raw {
 					h.Write(buf)
